@@ -34,8 +34,16 @@ def run(ck, prog):
                  ("R16.5", "source root = the visited set")):
         ck.rule(r, t)
     cg = callgraph(prog)
+    # the function that walks the include graph: the work-list loop (VecDeque::pop_front) reachable from
+    # AnalysisHost::set_root_file, whatever it is called
+    def has_worklist(body):
+        return any((Body.callee(t) or "").endswith("VecDeque::<T, A>::pop_front") for _, t in body.calls())
     b = prog.body(COLLECT)
-    ck.anchor(b is not None, "collect_sources not found")
+    if b is None or not has_worklist(b):
+        roots = [p for p in prog.bodies if p.endswith("AnalysisHost::set_root_file")]
+        cands = [prog.body(p) for p in sorted(cg.reachable(roots)) if prog.body(p) is not None and has_worklist(prog.body(p))]
+        b = cands[0] if len(cands) == 1 else b
+    ck.anchor(b is not None, "collect_sources (the include work-list walk reachable from set_root_file) not found")
 
     # ---- R16.1 ---------------------------------------------------------------------
     loops = cfg.loops(b)
